@@ -1,23 +1,61 @@
-// C09: psX509ParseCert on arbitrary bytes (libFuzzer / tape).  Placeholder: walker oracle added later.
-#include "vf.h"
-extern "C" {
-#include "crypto/cryptoApi.h"
-}
+// C09 target c09_x509_cert: psX509ParseCert on arbitrary DER bytes, every flag combination.
+//   input = [selector][DER bytes]; selector bits 0..2 = CERT_STORE_UNPARSED_BUFFER, CERT_STORE_DN_BUFFER,
+//   CERT_ALLOW_BUNDLE_PARTIAL_PARSE.
+// Oracle: sanitizers; leak check after psX509FreeCert; on success the consistency walker over every cert
+// of the returned chain whose parseStatus is PS_X509_PARSE_SUCCESS, the DN / cert accessor API, and (when
+// unparsedBin was requested) the round trip: re-parsing unparsedBin succeeds and yields the same digest.
+#define C09_HDR 1
+#define C09_PARTS 1
+#include "c09_common.h"
+#include "asn1_mutator.h"
 using namespace vf;
+using namespace c09;
+
 static void prop(Tape &t, Ctx &c) {
-    uint8_t fl = t.u8();
+    uint8_t sel = t.u8();
     int32 flags = 0;
-    if (fl & 1) flags |= CERT_STORE_UNPARSED_BUFFER;
-    if (fl & 2) flags |= CERT_STORE_DN_BUFFER;
-    if (fl & 4) flags |= CERT_ALLOW_BUNDLE_PARTIAL_PARSE;
-    size_t n = t.n - t.pos;
-    uint8_t *buf = (uint8_t *) malloc(n ? n : 1); memcpy(buf, t.p + t.pos, n);
-    psX509Cert_t *cert = NULL;
-    int32 rc = psX509ParseCert(NULL, buf, (uint32) n, &cert, flags);
-    if (rc >= 0) { c.count("parsed"); c.nontrivial(fmt("ok:%d:%zu", flags, n / 64)); }
-    else c.count("rejected");
-    if (cert) psX509FreeCert(cert);
-    free(buf);
+    if (sel & 1) flags |= CERT_STORE_UNPARSED_BUFFER;
+    if (sel & 2) flags |= CERT_STORE_DN_BUFFER;
+    if (sel & 4) flags |= CERT_ALLOW_BUNDLE_PARTIAL_PARSE;
+    ExactBuf in(t.p + t.pos, t.n - t.pos);
+    bool deep = outer_tlv_ok(in.p, in.n);
+    uint64_t shape = tlv_shape(in.p, in.n);
+    int ncerts = 0, nok = 0; int32 rc;
+    {
+        LeakScope leak("psX509ParseCert");
+        psX509Cert_t *cert = NULL;
+        rc = psX509ParseCert(NULL, in.p, (uint32) in.n, &cert, flags);
+        if (rc >= 0 && cert) {
+            for (psX509Cert_t *x = cert; x; x = x->next) {
+                VF_CHECK(++ncerts < 10000, "walker-list-cycle", "cert chain does not end");
+                C09_REGION(x, sizeof *x, "cert-node");
+                if (x->parseStatus != PS_X509_PARSE_SUCCESS) continue;
+                nok++;
+                uint64_t dg = walk_cert(x, flags);
+                exercise_cert_api(x, flags);
+                if (flags & CERT_STORE_UNPARSED_BUFFER) {
+                    // round trip on a private exact-size copy of the stored DER
+                    ExactBuf der(x->unparsedBin, x->binLen);
+                    psX509Cert_t *again = NULL;
+                    int32 rc2 = psX509ParseCert(NULL, der.p, (uint32) der.n, &again, flags & ~CERT_ALLOW_BUNDLE_PARTIAL_PARSE);
+                    bool ok2 = rc2 >= 0 && again && again->parseStatus == PS_X509_PARSE_SUCCESS;
+                    uint64_t dg2 = ok2 ? walk_cert(again, flags) : 0;
+                    psX509FreeCert(again);
+                    VF_CHECK(ok2, "roundtrip-reparse-failed", "re-parse of unparsedBin (%u bytes) failed rc=%d", (unsigned) der.n, rc2);
+                    VF_CHECK(dg2 == dg, "roundtrip-digest-mismatch", "re-parse of unparsedBin gives a different object (binLen %u)", (unsigned) der.n);
+                }
+            }
+            if (!(flags & CERT_ALLOW_BUNDLE_PARTIAL_PARSE))
+                VF_CHECK(rc <= (int32) in.n, "parse-length-overrun", "psX509ParseCert returned parsed length %d > input %zu", rc, in.n);
+        }
+        psX509FreeCert(cert);
+        leak.check(fmt("rc=%d flags=%d", rc, flags));
+    }
+    if (rc >= 0 && nok > 0) { c.count("parsed"); c.count(fmt("parsed.flags%d", flags)); if (ncerts > 1) c.count("parsed.chain"); }
+    else if (deep) c.count("rejected.deep");
+    else c.count("rejected.shallow");
+    if ((rc >= 0 && nok > 0) || deep) c.nontrivial(fmt("x509:%d:%d:%llx", rc >= 0, flags, (unsigned long long) shape));
+    if (rc >= 0 && nok > 0) c.sample(fmt("psX509ParseCert flags=%d len=%zu rc=%d certs=%d ok=%d", flags, in.n, rc, ncerts, nok));
 }
 VF_TARGET("C09.x509_cert", prop, 2048, 20)
 namespace vf { void vf_global_init(int, char **) { psCryptoOpen(PSCRYPTO_CONFIG); } }
